@@ -20,7 +20,10 @@ func (i *IRCServer) cmdServerNick(s *Session, reply *Replyctx, msg *irc.Message)
 	// <nickname> <hopcount> <username> <host> <servertoken> <umode> <realname>
 
 	// Could be either a nickchange or the introduction of a new user.
-	if len(msg.Params) == 1 {
+	// A nickchange carries the new nickname and possibly a timestamp
+	// (“:Bot NICK NewBot 1422134999”), an introduction has all the parameters
+	// listed above.
+	if len(msg.Params) < 4 {
 		// TODO(secure): handle nickchanges. not sure when/if those are used. botserv maybe?
 		return
 	}
